@@ -1,6 +1,6 @@
 ----------------------------- MODULE Export_C05 -----------------------------
 EXTENDS U_C05, Json, IOUtils
-ASSUME JsonSerialize(IOEnv.JASM_OUT, [i |-> Universe, o |-> UniverseO, r |-> UniverseR, d |-> UniverseD])
+ASSUME JsonSerialize(IOEnv.JASM_OUT, [i |-> Universe, o |-> UniverseO, r |-> UniverseR, d |-> UniverseD, g |-> UniverseG])
 VARIABLE x
 Init == x = 0
 Next == x' = x
